@@ -4,10 +4,19 @@ import gen
 
 OPS = ["==", "!=", "~=", "<=", ">=", "<", ">", "===", "==*", "!=*"]
 TRI = ["N", "N", "T", "F"]
-SEP = [",", ",", ", ", " , ", " ,", ",,", ",\n", ",\t ", ", ", " , "]
-LEAD = ["", "", "", " ", ",", ", ", "\n"]
-TAIL = ["", "", "", " ", ",", ",, ", " \t"]
-ARB = ["foo", "1.0", "1.0.0", "1.0a1", "a,b", "1.0+LOCAL", "v1", "1.0.dev0", "x;y", "ſ", ">=1", "1.0,>=2"]
+# with the non-bool values the code reads by truthiness: ints for overrides (1 == True, so `&` still sees them as equal), ints and strs for call arguments
+TRI_OV = ["N", "N", "N", "T", "T", "F", "F", "1", "0"]
+TRI_ARG = ["N", "N", "N", "T", "T", "F", "F", "1", "0", "S", "E"]
+# separators / padding: ASCII, NBSP, EM SPACE, and the code points str.strip() and the regex \s treat as space that are easy to forget:
+# U+0085 NEL, U+2028 LINE SEPARATOR, U+001C FILE SEPARATOR
+SEP = [",", ",", ", ", " , ", " ,", ",,", ",\n", ",\t ", ",\u00a0", "\u2003, ", ",\x85", "\u2028,", ",\x1c ", "\x85,\u2028", ",\x85,", ",\x1c\u2028,"]
+LEAD = ["", "", "", " ", ",", ", ", "\n", "\x85", "\u2028 ", "\x1c"]
+TAIL = ["", "", "", " ", ",", ",, ", " \t", "\x85", " \u2028", "\x1c"]
+# texts of '===' (any run of non-space characters): plain, version-like, with a comma (D19), case-fold confusables whose str.lower() is
+# special (U+017F, U+212A KELVIN SIGN -> k, U+0130 -> i + U+0307), upper-case local labels
+ARB = ["foo", "1.0", "1.0.0", "1.0a1", "a,b", "1.0+LOCAL", "v1", "1.0.dev0", "x;y", "\u017f", ">=1", "1.0,>=2",
+       "\u212a", "\u0130", "1.0+K", "1.0+\u212a", "1.0+\u0130", "1.0+k", "1.0RC1"]
+ARB_CANDS = ["1.0+k", "1.0+K", "1.0+i", "1.0rc1", "1.0", "1.0+local"]
 
 
 def base(v): return gen.V(v.epoch, v.release, None, None, None, None)
@@ -29,14 +38,14 @@ def clause_of(rng, v, op=None, plain=False):
     op = op or rng.choice(OPS)
     w = op.endswith("*"); op = op.rstrip("*")
     if op == "===":
-        if rng.random() < 0.4: return "===" + rng.choice(["", " "]) + rng.choice(ARB)
+        if rng.random() < 0.4: return "===" + rng.choice(["", " ", "\x85"]) + rng.choice(ARB)
         return "===" + gen.vstr(v)
     if w: v = base(v)
     if op not in ("==", "!="): v = public(v)
     if op == "~=" and len(v.release) < 2: v = replace(v, release=v.release + (0,))
     if plain or rng.random() < 0.55: t = gen.vstr(v)
     else: t = gen.spell(rng, v, ws=False)
-    return op + rng.choice(["", "", "", " ", "\t"]) + t + (".*" if w else "")
+    return op + rng.choice(["", "", "", " ", "\t", "\u2028", "\x1c\x85"]) + t + (".*" if w else "")
 
 
 def clause(rng, pool=None):
@@ -75,6 +84,7 @@ def pool_of(rng, n=2):
 
 
 def candidate(rng, pool, valid=0.95):
+    if rng.random() < 0.04: return rng.choice(ARB_CANDS)
     v = rng.choice(pool) if rng.random() < 0.75 else rand_v(rng)
     k = rng.random()
     if k < 0.35: v = rng.choice(gen.neighbours(rng, v))
